@@ -31,6 +31,7 @@ import (
 	"sort"
 	"strings"
 	"sync"
+	"time"
 
 	"verif/core"
 )
@@ -122,7 +123,10 @@ func run(c *core.Ctx) error {
 		{"conc-hook", "TypeContext.conc-hook." + tier + ".cfg", 4, true},
 	}
 	if !c.Quick() {
-		tours = append(tours, tourCfg{"seq-level1", "TypeContext.seq-level1.thorough.cfg", 4, true})
+		tours = append(tours,
+			tourCfg{"seq-level1", "TypeContext.seq-level1.thorough.cfg", 4, true},
+			tourCfg{"seq-named3", "TypeContext.seq-named3.thorough.cfg", 4, true},
+			tourCfg{"seq-nest3", "TypeContext.seq-nest3.thorough.cfg", 4, true})
 	}
 
 	// All TLC runs of the spec -> code direction in parallel.
@@ -133,11 +137,18 @@ func run(c *core.Ctx) error {
 	}
 	outs := make([]tourOut, len(tours))
 	var wg sync.WaitGroup
+	sem := make(chan struct{}, 6) // at most 6 JVMs at a time
 	for i, t := range tours {
 		wg.Add(1)
 		go func(i int, t tourCfg) {
 			defer wg.Done()
-			res := c.MustHold(core.TLCRun{Module: "TypeContext", Cfg: t.cfg, Workers: t.workers})
+			sem <- struct{}{}
+			defer func() { <-sem }()
+			timeout := 5 * time.Minute
+			if !c.Quick() {
+				timeout = 15 * time.Minute
+			}
+			res := c.MustHold(core.TLCRun{Module: "TypeContext", Cfg: t.cfg, Workers: t.workers, Timeout: timeout})
 			if res == nil {
 				outs[i].err = fmt.Errorf("TLC run %s did not hold", t.name)
 				return
